@@ -1,4 +1,6 @@
 import GrmVerif.Lemmas.TableSpec
+import GrmVerif.Model.Cert
+import GrmVerif.Model.Closure
 import GrmVerif.Drive.Util
 /-!
 Drivers for C03 (conflict resolution and reporting) and C16 (table/graph views agree).
@@ -122,3 +124,43 @@ def handle (args : List Nat) : String :=
     "\n".intercalate (lines ++ (if v1.isEmpty then ["V ok"] else v1))
 
 end GrmVerif.Drive.C03
+
+namespace GrmVerif.Drive.C16
+open GrmVerif GrmVerif.Table GrmVerif.Drive GrmVerif.Drive.Table
+
+/-- the dumped `core_reduces` of a state satisfy the specification for the dumped row -/
+def coreReducesOk (G : Grammar) (st : StateD) : Bool :=
+  let reds := st.actions.filterMap (fun a => match a with | .reduce p => some p | _ => none)
+  st.coreReduces.all (fun q => reds.contains q) &&
+  reds.all (fun p => (st.coreReduces.filter (fun q => rkey G q == rkey G p)).length == 1)
+
+def handle (args : List Nat) : String :=
+  match parse args with
+  | none => "bad-request"
+  | some P =>
+    if !P.G.wf then "V fail dumped grammar is not well-formed" else
+    let G := P.G
+    let A := P.A
+    let bad := (Cert.failing G A).filter (fun c => c == "itemsOk" || c == "K3'" || c == "K4" || c == "K5" || c == "K2")
+    let v1 := if bad.isEmpty then [] else [s!"V fail graph/table disagree clauses={bad}"]
+    let v2 := match Closure.reachableStates A with
+      | none => ["V fail reachability: fuel exhausted"]
+      | some R =>
+        match (List.range A.nstates).find? (fun s => !R.contains s) with
+        | some s => [s!"V fail unreachable-state state={s}"]
+        | none => []
+    let v3 := match Ref.analyses G with
+      | none => ["V fail analyses: fuel exhausted"]
+      | some An =>
+        (List.range A.nstates).filterMap (fun s =>
+          match Closure.close1 G (An.nullable.contains ·) (An.first.contains ·) (A.core s) with
+          | none => some s!"V fail closure: fuel exhausted state={s}"
+          | some S => if Closure.sameAs G S (A.closed s) then none else some s!"V fail closed-state-is-not-the-closure-of-its-core state={s}")
+    let v4 := (List.range A.nstates).filterMap (fun s =>
+      match A.states[s]? with
+      | some st => if coreReducesOk G st then none else some s!"V fail core-reduces state={s}"
+      | none => none)
+    let vs := v1 ++ v2 ++ v3 ++ v4
+    "\n".intercalate ([s!"M {modelLine P}", s!"S2 {specLine P}"] ++ (if vs.isEmpty then ["V ok"] else vs))
+
+end GrmVerif.Drive.C16
